@@ -1929,14 +1929,21 @@ m("C05", "onerror-scope-not-restored", C,
                       error_assignment +''',
   '''                body=(error_assignment +''')
 m("C05", "onerror-scope-restored-without-globals", C,
-  '''            "DICT.clear(econtext); econtext.update(scope); "
-            "econtext.update(rcontext)", scope=scope, DICT=Builtin("dict")''',
-  '''            "DICT.clear(econtext); econtext.update(scope)",
-            scope=scope, DICT=Builtin("dict")''')
+  '''            scope=scope, DICT=Builtin("dict")
+        ) + self._merge_changed_globals(snapshot)''',
+  '''            scope=scope, DICT=Builtin("dict")
+        )''')
+m("C05", "onerror-reapplies-all-globals", C,
+  '''            scope=scope, DICT=Builtin("dict")
+        ) + self._merge_changed_globals(snapshot)''',
+  '''            scope=scope, DICT=Builtin("dict")
+        ) + template("econtext.update(rcontext)")''')
 m("C05", "onerror-scope-snapshot-shared", C,
   '''        scope = identifier("__scope", id(node))
+        snapshot = identifier("__globals", id(node))
         body += template(''',
   '''        scope = identifier("__scope", node.name)
+        snapshot = identifier("__globals", id(node))
         body += template(''')
 m("C09", "macro-scope-copy-shared", C,
   '''        scope = identifier("__scope", id(node))
@@ -2189,23 +2196,23 @@ m("C10", "default-content-untranslated", ZP,
 
 for _p in ("C05", "C09"):
     m(_p, "macro-merge-all-globals", C,
-      '''            template(
-                "econtext.update(\\n"
-                "    __item for __item in rcontext.items()\\n"
-                "    if SNAPSHOT.get(__item[0], __marker) is not __item[1])",
-                SNAPSHOT=snapshot)''',
-      '''            template("econtext.update(rcontext)")''')
+      '''        return template(
+            "econtext.update(\\n"
+            "    __item for __item in rcontext.items()\\n"
+            "    if SNAPSHOT.get(__item[0], __marker) is not __item[1])",
+            SNAPSHOT=snapshot)''',
+      '''        return template("econtext.update(rcontext)")''')
     m(_p, "macro-merge-new-names-only", C,
-      '''                "    if SNAPSHOT.get(__item[0], __marker) is not __item[1])",''',
-      '''                "    if __item[0] not in SNAPSHOT)",''')
+      '''            "    if SNAPSHOT.get(__item[0], __marker) is not __item[1])",''',
+      '''            "    if __item[0] not in SNAPSHOT)",''')
 m("C05", "macro-merge-snapshot-shared", C,
-  '''        snapshot = identifier("__globals", id(node))''',
-  '''        snapshot = "__globals"''')
+  '''        snapshot = identifier("__globals", id(node))
+        return self._snapshot_globals(snapshot) + call + \\''',
+  '''        snapshot = "__globals"
+        return self._snapshot_globals(snapshot) + call + \\''')
 m("C09", "macro-merge-snapshot-after-call", C,
-  '''        return template("SNAPSHOT = rcontext.copy()", SNAPSHOT=snapshot) + \\
-            call + \\
-''', '''        return call + \\
-            template("SNAPSHOT = rcontext.copy()", SNAPSHOT=snapshot) + \\
+  '''        return self._snapshot_globals(snapshot) + call + \\
+''', '''        return call + self._snapshot_globals(snapshot) + \\
 ''')
 
 for _p in ("C05", "C09"):
